@@ -104,7 +104,7 @@ PROPS = {
     "C04": {
         "level": "exploration",
         "interpreters": PRODUCERS,
-        "rule": "S-SIG completely: (posonly{0,1,2 on 3.8+} x pos-or-kw{0,1,2} x kwonly{0,1,2} x *args{0,1} x **kw{0,1}) x {def, lambda, async def, generator, async generator, method} x 9 docstring shapes x parameter-is-a-cell{no,yes}, plus comprehensions/class bodies/modules, plus every function-like code object of the program grammar (Pa, Pc, repo sources; thorough: all strata and the stdlib corpus). Oracle: header reading of CPython's local layout, inspect.signature of a function built from the code, and CPython's own argument binding of a stub with the same header (positional/keyword/negative calls). distinct_nontrivial = distinct (signature, flags, first-constant type) triples of function-like code objects.",
+        "rule": "S-SIG completely: (posonly{0,1,2 on 3.8+} x pos-or-kw{0,1,2} x kwonly{0,1,2} x *args{0,1} x **kw{0,1}) x {def, lambda, async def, generator, async generator, method} x 12 docstring shapes (none, plain, non-first string, non-string first statement, bytes, f-string, lone surrogate, string first used as a value, stripped by optimize=2, empty string, empty string also used as a value, whitespace) x parameter-is-a-cell{no,yes}, plus comprehensions/class bodies/modules, plus every function-like code object of the program grammar (Pa, Pc, repo sources; thorough: all strata and the stdlib corpus). Oracle: header reading of CPython's local layout, inspect.signature of a function built from the code, and CPython's own argument binding of a stub with the same header (positional/keyword/negative calls). distinct_nontrivial = distinct (signature, flags, first-constant type) triples of function-like code objects.",
         "assumptions": TRUST + ["inspect's 'implicitN' presentation of comprehension parameters is undone (see DESIGN 9.2)"],
         "required_reach": {"quick": ["param:POSITIONAL_ONLY@3.8,3.9,3.10", "param:POSITIONAL_OR_KEYWORD", "param:VAR_POSITIONAL", "param:KEYWORD_ONLY", "param:VAR_KEYWORD", "param:star+kwonly", "has-doc", "kind:GENERATOR", "kind:COROUTINE", "kind:ASYNC_GENERATOR", "kind:None", "nonfn", "sig-ok", "nonfn-ok"]},
     },
